@@ -425,26 +425,29 @@ pub fn decode(mode: &str, path: &str) {
 }
 
 /// header cases: `<idx> <opts> <prevhex|-> <prev_format_none 0|1> <hex>`: the public parser entry point
-/// decode_picture with an optional previous header (parsed from prevhex with no predecessor).
+/// decode_picture with an optional previous header (parsed from prevhex with no predecessor; a comma-separated chain
+/// parses each header with the one before it as predecessor).
 pub fn header(path: &str) {
     let mut o = out();
     for line in read_lines(path) {
         let f: Vec<&str> = line.split_whitespace().collect();
         let opts: u8 = f[1].parse().unwrap();
         let tok = catch(|| {
-            let prev = if f[2] == "-" {
-                None
-            } else {
-                let pd = unhex(f[2]);
-                let mut pr = H263Reader::from_source(&pd[..]);
-                let mut p = h263_rs::parser::decode_picture(&mut pr, opts_of(opts), None)
-                    .expect("prev header must parse")
-                    .expect("prev header must be a picture");
-                if f[3] == "1" {
-                    p.format = None;
+            // prevhex may be a chain "hexA,hexB,...": each header is parsed with the one before it as its predecessor
+            let mut prev = None;
+            if f[2] != "-" {
+                for (k, ph) in f[2].split(',').enumerate() {
+                    let pd = unhex(ph);
+                    let mut pr = H263Reader::from_source(&pd[..]);
+                    let mut p = h263_rs::parser::decode_picture(&mut pr, opts_of(opts), prev.as_ref())
+                        .expect("prev header must parse")
+                        .expect("prev header must be a picture");
+                    if k == 0 && f[3] == "1" {
+                        p.format = None;
+                    }
+                    prev = Some(p);
                 }
-                Some(p)
-            };
+            }
             let data = unhex(f[4]);
             let mut r = H263Reader::from_source(&data[..]);
             match h263_rs::parser::decode_picture(&mut r, opts_of(opts), prev.as_ref()) {
